@@ -80,7 +80,8 @@ func langFor(name string) string {
 }
 
 var repoNames = []string{"github.com/a/foo", "github.com/a/bar", "gitlab.com/b/foo", "r1", "github.com/c/needle", "example.org/été"}
-var branchPool = []string{"dev", "release", "feature/x", "v1.0"}
+// some names contain others (dev / dev-old, release / release/2): substring vs exact matters
+var branchPool = []string{"dev", "release", "feature/x", "v1.0", "dev-old", "release/2"}
 var symKinds = []string{"function", "class", "variable", "method", ""}
 
 // CorpusOpts steers the corpus generator.
@@ -539,7 +540,7 @@ func genAtom(g G, c *Corpus, o QueryOpts) (QSpec, []string) {
 	case k < 68:
 		return QSpec{Op: "lang", Pat: Pick(g, []string{"Go", "Python", "Markdown", "Text", "C", "Rust"}, "lang")}, []string{"lang"}
 	case k < 76:
-		pat := Pick(g, []string{"HEAD", "main", "dev", "release", "feature/x", "v1.0", "e", "", "nope", "feature"}, "bpat")
+		pat := Pick(g, []string{"HEAD", "main", "dev", "release", "feature/x", "v1.0", "e", "", "nope", "feature", "dev-old", "release/2"}, "bpat")
 		exact := g.Bool(50, "bexact")
 		return QSpec{Op: "branch", Pat: pat, Exact: exact}, []string{"branch"}
 	case k < 80 && o.ConstAtoms:
